@@ -29,9 +29,14 @@ META = dict(
          "PPModel/Base/Regex.lean), full strength, each with non-vacuity examples: integer_language, "
          "hex_integer_language, signed_integer_language, real_language (+ ureal_language, accepts_signOpt), "
          "uuid_language (8-4-4-4-12 hex digits), iso8601_date_language (yyyy | yyyy-mm | yyyy-mm-dd), fnumber_language "
-         "(+ fnumber_body_language, expo_accepts: optional sign, digits, optional '.' digits*, optional exponent) - the "
+         "(+ fnumber_body_language, expo_accepts: optional sign, digits, optional '.' digits*, optional exponent), "
+         "sci_real_language (+ sci_body_language, ureal_first_sound/complete: optional sign, digits+exponent or real with "
+         "optional exponent) - the "
          "pattern read from the live package parses to the pinned AST and the AST's preferred re.match consumes the whole "
-         "string iff the string has the documented syntax. For sci_real, ieee_float, identifier, ipv4_address, "
+         "string iff the string has the documented syntax. ipv4_language_partial proves ONLY the soundness half for "
+         "ipv4_address (accepted => four octets of the pattern's exact policy, 1-2 digits or 1dd / 2[0-4]d / 25[0-5], "
+         "separated by dots); its converse (every such string is accepted: the preferred match is the full one) is "
+         "missing. For ieee_float, identifier, "
          "mac_address (back-reference: needs capture-aware lemmas about the matcher `m`), iso8601_datetime, number, "
          "fraction, ipv6 parts and the quoted-string built-ins only the generated-fact obligations (*_pattern_ast, "
          "*_leaves_fact, *_quoted_string_fact: live pattern = pinned AST, checked by the kernel on every run) are proved; "
@@ -59,6 +64,8 @@ THEOREMS = [
     "PP.C18.real_pattern_ast", "PP.C18.real_language", "PP.C18.ureal_language", "PP.C18.accepts_signOpt",
     "PP.C18.uuid_language", "PP.C18.iso8601_date_language", "PP.C18.fnumber_language", "PP.C18.fnumber_body_language",
     "PP.C18.expo_accepts",
+    "PP.C18.ipv4_language_partial", "PP.C18.mem_octet",
+    "PP.C18.sci_real_language", "PP.C18.sci_body_language", "PP.C18.ureal_first_sound", "PP.C18.ureal_first_complete",
     "PP.C18.sci_real_pattern_ast", "PP.C18.fnumber_pattern_ast",
     "PP.C18.ieee_float_pattern_ast", "PP.C18.identifier_pattern_ast", "PP.C18.ipv4_address_pattern_ast",
     "PP.C18.mac_address_pattern_ast", "PP.C18.iso8601_date_pattern_ast", "PP.C18.iso8601_datetime_pattern_ast",
@@ -1010,7 +1017,8 @@ def quoted_oracle(ctx, pp):
     for cfg in cfgs:
         E = cfg["end_quote_char"] or cfg["quote_char"]
         alpha = list("ab c\\\\tn0x41u\t\n\r'\"") + [E, E[0], cfg["quote_char"], cfg["esc_char"] or "z",
-                                                      cfg["esc_quote"] or "y", "\\t", "\\n", "\\x41", "\\101", "\\0"]
+                                                      cfg["esc_quote"] or "y", "\\t", "\\n", "\\x41", "\\101", "\\0",
+                                                      "\x0c", "\x0b", "\xa0", "\u2003", "\x1c", "\x85", "é", "\x00"]
         for _ in range(ctx.budget(12, 30)):
             content = "".join(rng.choice(alpha) for _ in range(rng.randint(0, 7)))
             # numeric escapes (x/u/o styles) are the region of the known finding quoted_numeric_escapes: generated
@@ -1115,36 +1123,41 @@ def quoted_builtins_oracle(ctx, pp):
 # ---------------------------------------------------------------------------------------------
 # nested_expr / DelimitedList / counted_array (search only)
 # ---------------------------------------------------------------------------------------------
-def gen_tree(rng, depth):
+UNUSUAL = ["\x0c", "\x0b", "\xa0", "\u2003", "\x1c", "\x1f", "\x85", "\u3000", "\u00e9", "~", "\\", '"', "'", "\x00", "\x7f"]
+
+
+def gen_tree(rng, depth, alpha="abc1"):
     items = []
     for _ in range(rng.randint(0, 3)):
         if depth > 0 and rng.random() < 0.4:
-            items.append(gen_tree(rng, depth - 1))
+            items.append(gen_tree(rng, depth - 1, alpha))
         else:
-            items.append("".join(rng.choice("abc1") for _ in range(rng.randint(1, 3))))
+            items.append("".join(rng.choice(alpha) for _ in range(rng.randint(1, 3))))
     return items
 
 
-def render_tree(rng, t, op, cl):
+def render_tree(rng, t, op, cl, white=" "):
+    w = lambda: rng.choice(white)
     out = op
     prev_word = False
     for x in t:
         is_word = not isinstance(x, list)
-        p = x if is_word else render_tree(rng, x, op, cl)
-        sep = " " if (prev_word and is_word) else rng.choice(["", " ", "  "])
+        p = x if is_word else render_tree(rng, x, op, cl, white)
+        sep = w() if (prev_word and is_word) else rng.choice(["", w(), w() + w()])
         out += sep + p
         prev_word = is_word
-    return out + rng.choice(["", " "]) + cl
+    return out + rng.choice(["", w()]) + cl
 
 
-def balanced_tree(s, op, cl):
-    """reference bracket reader: the nesting of a single balanced group spanning all of s, or None"""
+def balanced_tree(s, op, cl, white=" \t\n\r"):
+    """reference bracket reader: the nesting of a single balanced group spanning all of s, or None.
+    `white` is pyparsing's whitespace set (DEFAULT_WHITE_CHARS), every other character is content."""
     pos = 0
     n = len(s)
 
     def skip():
         nonlocal pos
-        while pos < n and s[pos] in " \t\n\r":
+        while pos < n and s[pos] in white:
             pos += 1
 
     def group():
@@ -1167,7 +1180,7 @@ def balanced_tree(s, op, cl):
                 items.append(g)
                 continue
             st = pos
-            while pos < n and s[pos] not in " \t\n\r" and not s.startswith(op, pos) and not s.startswith(cl, pos):
+            while pos < n and s[pos] not in white and not s.startswith(op, pos) and not s.startswith(cl, pos):
                 pos += 1
             items.append(s[st:pos])
 
@@ -1179,41 +1192,76 @@ def balanced_tree(s, op, cl):
     return g if pos == n else None
 
 
-def check_nested(pp, op, cl, s):
-    e = pp.nested_expr(op, cl, ignore_expr=None)
-    res = _accept(pp, e, s)
-    want = balanced_tree(s, op, cl)
-    if res[0] == "error":
-        return ("no internal error", res[1])
-    if (res[0] == "ok") != (want is not None):
-        return (f"balanced={want is not None}", "accepted" if res[0] == "ok" else "rejected")
-    if want is not None:
-        got = e.parse_string(s, parse_all=True).as_list()
-        if got != [want]:
-            return (f"{[want]!r}", f"{got!r}")
-    return None
+def check_nested(pp, op, cl, s, white=None):
+    """white=None: the default whitespace set; otherwise nested_expr is built and run under
+    set_default_whitespace_chars(white) inside reset_pyparsing_context"""
+    def go():
+        e = pp.nested_expr(op, cl, ignore_expr=None)
+        res = _accept(pp, e, s)
+        want = balanced_tree(s, op, cl, white if white is not None else " \t\n\r")
+        if res[0] == "error":
+            return ("no internal error", res[1])
+        if (res[0] == "ok") != (want is not None):
+            return (f"balanced={want is not None}" + (f" nesting {[want]!r}" if want is not None else ""),
+                    "accepted" if res[0] == "ok" else "rejected")
+        if want is not None:
+            got = e.parse_string(s, parse_all=True).as_list()
+            if got != [want]:
+                return (f"{[want]!r}", f"{got!r}")
+        return None
+
+    if white is None:
+        return go()
+    from pyparsing.testing import pyparsing_test
+    with pyparsing_test.reset_pyparsing_context():
+        pp.ParserElement.set_default_whitespace_chars(white)
+        return go()
 
 
 def nested_oracle(ctx, pp):
     rng = ctx.subrng("nested")
     n = 0
     outcomes = {}
-    pairs = [("(", ")"), ("[", "]"), ("{", "}"), ("<<", ">>"), ("{{", "}}"), ("begin", "end")]
+    pairs = [("(", ")"), ("[", "]"), ("{", "}"), ("<<", ">>"), ("{{", "}}"), ("begin", "end"), ("{%", "%}"),
+             ("<", "/>"), ("(*", ")")]
+    fixed = [("<<", ">>", "<<a\x0cb>>", None), ("{%", "%}", "{% a\xa0b {%   %} %}", None),
+             ("(", ")", "(a\x0bb (\x1c))", None), ("<<", ">>", "<<a\nb  c>>", " \t"), ("(", ")", "(a\nb (c\r))", " \t")]
+    cases = list(fixed)
     for _ in range(ctx.budget(5000, 60000)):
         op, cl = rng.choice(pairs)
-        t = gen_tree(rng, 3)
-        s = render_tree(rng, t, op, cl)
-        if rng.random() < 0.45:
-            s = mutate(rng, s, [op, cl, " ", "a", op[0], cl[0]])
+        r = rng.random()
+        white = None
+        if r < 0.45:
+            alpha = "abc1"                               # plain words
+        elif r < 0.8:
+            alpha = list("ab1") + UNUSUAL + [op[0], cl[0], cl[-1]]   # characters re's \s / \w / quoting treat specially
+            alpha = [c for c in alpha if c not in " \t\n\r"]
+        else:
+            white = rng.choice([" \t", " ", " \t\n"])     # narrowed DEFAULT_WHITE_CHARS: the rest is content
+            alpha = list("ab1") + [c for c in "\n\r\t" if c not in white and c != "\t"] + ["\x0c"]
+        sep = white if white is not None else " \t\n\r"
+        sep = sep.replace("\t", "")  # parse_string expands tabs: keep column arithmetic out of the reference
+        t = gen_tree(rng, 3, alpha)
+        if len(op) > 1 and op.isalpha():
+            t = gen_tree(rng, 3, "abc1")
+        s = render_tree(rng, t, op, cl, sep)
+        if rng.random() < 0.4:
+            s = mutate(rng, s, [op, cl, " ", "a", op[0], cl[0]] + UNUSUAL[:5])
+        if "\t" in s:
+            continue
+        cases.append((op, cl, s, white))
+    for op, cl, s, white in cases:
         n += 1
-        d = check_nested(pp, op, cl, s)
-        k = "balanced" if balanced_tree(s, op, cl) is not None else "unbalanced"
+        d = check_nested(pp, op, cl, s, white)
+        k = ("balanced" if balanced_tree(s, op, cl, white or " \t\n\r") is not None else "unbalanced") + \
+            (":narrow-ws" if white is not None else ":unusual" if not s.isascii() or any(ord(c) < 32 and c not in "\n\r" for c in s) else "")
         outcomes[k] = outcomes.get(k, 0) + 1
         if d is not None and not any("nested" in f["case"] for f in ctx.fail_inputs):
-            ctx.fail_input("nested_expr vs bracket reader", {"nested": [op, cl], "s": s}, d[0], d[1],
+            ctx.fail_input("nested_expr vs bracket reader", {"nested": [op, cl], "s": s, "white": white}, d[0], d[1],
                            theorem="C18 nested_roundtrip (oracle, search only)",
-                           how=f"nested_expr({op!r}, {cl!r}, ignore_expr=None).parse_string({s!r}, parse_all=True)")
-    ctx.count_cases("oracle-nested", n, outcomes=outcomes, samples=[{"nested": ["(", ")"], "s": "(a (b c) ())"}])
+                           how=f"nested_expr({op!r}, {cl!r}, ignore_expr=None).parse_string({s!r}, parse_all=True)"
+                               + (f" under set_default_whitespace_chars({white!r})" if white is not None else ""))
+    ctx.count_cases("oracle-nested", n, outcomes=outcomes, samples=[{"nested": ["<<", ">>"], "s": "<<a\x0cb <<c>>>>"}])
 
 
 def check_delimited(pp, delim, mn, mx, trail, combine, s):
@@ -1270,8 +1318,8 @@ def delimited_oracle(ctx, pp):
         if rng.random() < 0.4:
             s += delim
         if rng.random() < 0.25:
-            s = mutate(rng, s, [delim, "a", "x", delim[0]])
-        s = s.strip()
+            s = mutate(rng, s, [delim, "a", "x", delim[0]] + UNUSUAL[:6])
+        s = s.strip(" \t\n\r")
         if " " in s and combine:
             continue
         if mx == 1 and trail:
@@ -1305,7 +1353,7 @@ def check_counted(pp, s, use_int_expr):
     want = None
     if h > 0:
         k = int(s[:h], base)
-        items = s[h:].split()
+        items = [x for x in re.split("[ \t\n\r]+", s[h:]) if x]  # pyparsing's whitespace, not str.split()'s
         if len(items) == k and all(all(c in "ab" for c in it) for it in items):
             want = items
     if res[0] == "error":
@@ -1331,8 +1379,8 @@ def counted_oracle(ctx, pp):
             head = "0" + head
         s = " ".join([head] + items)
         if rng.random() < 0.1:
-            s = mutate(rng, s, list("ab 12"))
-        s = s.strip()
+            s = mutate(rng, s, list("ab 12") + UNUSUAL[:6])
+        s = s.strip(" \t\n\r")
         n += 1
         d = check_counted(pp, s, use)
         outcomes["exact" if k == real_k else "off"] = outcomes.get("exact" if k == real_k else "off", 0) + 1
@@ -1362,8 +1410,13 @@ def run(ctx):
         "combinations (10 quote pairs x esc_char x esc_quote x multiline x unquote_results x convert_whitespace_escapes) "
         "x contents over an alphabet of quotes, escapes, backslash sequences and blanks, encoded by a reference encoder "
         "(unrepresentable contents are skipped and counted). oracle-quoted-builtins: dbl/sgl/quoted_string vs a reference "
-        "scanner + remove_quotes. oracle-nested: random bracket trees rendered with 6 opener/closer pairs, 45% mutated, vs "
-        "a bracket reader. oracle-delimited: delim x min x max x trailing x combine x item lists (max=1 with trailing "
+        "scanner + remove_quotes. oracle-nested: random bracket trees rendered with 9 opener/closer pairs (single- and multi-character, "
+        "keyword), ignore_expr=None, default content; words from plain letters (45%), from an alphabet of characters that "
+        "re's \\s/\\S, quoting or C strings treat specially (\\x0c \\x0b \\xa0 \\u2003 \\x1c \\x1f \\x85 \\u3000 e-acute ~ backslash "
+        "quotes NUL DEL) (35%), or under a narrowed DEFAULT_WHITE_CHARS (' \\t', ' ', ' \\t\\n') inside "
+        "reset_pyparsing_context with newlines/CR/FF as content (20%); 40% mutated; vs a bracket reader parametrised by "
+        "the whitespace set. The unusual characters also enter QuotedString contents and DelimitedList/counted_array "
+        "mutations. oracle-delimited: delim x min x max x trailing x combine x item lists (max=1 with trailing "
         "delimiter excluded: known finding). oracle-counted: announced vs real item count, decimal and binary counts")
     diffs = regex_correspondence(ctx, facts)
     boost = 1 if (ok and not diffs) else 4
@@ -1391,7 +1444,7 @@ def replay(data):
     if "quoted_builtin" in case:
         return check_quoted_builtin(pp, case["quoted_builtin"], case["s"]) is not None
     if "nested" in case:
-        return check_nested(pp, case["nested"][0], case["nested"][1], case["s"]) is not None
+        return check_nested(pp, case["nested"][0], case["nested"][1], case["s"], case.get("white")) is not None
     if "delimited" in case:
         return check_delimited(pp, *case["delimited"], case["s"]) not in (None, "skip")
     if "counted" in case:
